@@ -69,7 +69,8 @@ class ClaytonCopula(LevyCopula):
         sign_prod = 1
         sum_elmts = 0
         for elmt, sign_u in zip(us, sign_us):
-            sum_elmts += abs(elmt) ** (-self.theta)
+            # (float: numpy refuses a negative integer power of an integer-typed entry)
+            sum_elmts += float(abs(elmt)) ** (-self.theta)
             sign_prod *= sign_u
 
         # note that it seems to be slightly faster than:
@@ -139,6 +140,7 @@ class ClaytonCopula(LevyCopula):
         if np.any(u == 0):
             return 0
 
+        u = np.asarray(u, dtype=float)
         dim = u.size
         theta = self.theta
         u_prod = np.prod(u)
